@@ -178,7 +178,7 @@ class Env(object):
     """One execution: a fresh provider, its simulated socket, clock, and the observation log."""
 
     def __init__(self, role, history, budget=400, deviations=None, recv_limit=None, prequeue=0, dev_guard=None,
-                 store_in_file=frozenset(), get_file_cb=None):
+                 store_in_file=frozenset(), get_file_cb=None, max_pdu_length=16384):
         from pynetdicom2 import dulprovider, asceprovider
         from pydicom import uid
         Patches.apply()
@@ -211,7 +211,7 @@ class Env(object):
                     self.sock.inq += self.history[self.pos][1]
                     self.cur['pre'] = self.cur.get('pre', 0) + 1
                     self.pos += 1
-        self.prov = dulprovider.DULServiceProvider(store_in_file, get_file_cb, self.sock, 16384)
+        self.prov = dulprovider.DULServiceProvider(store_in_file, get_file_cb, self.sock, max_pdu_length)
         ctx = asceprovider.PContextDef(1, uid.UID('1.2.840.10008.1.1'), uid.UID('1.2.840.10008.1.2'))
         ctx3 = asceprovider.PContextDef(3, uid.UID('1.2.840.10008.5.1.4.1.1.2'), uid.UID('1.2.840.10008.1.2'))
         self.prov.accepted_contexts = {1: ctx, 3: ctx3}
